@@ -214,6 +214,57 @@ def run(ctx):
                                    f'emsarray.open_dataset(input) written by the library', case)
                         break
             ondisk.close()
+        # ---- a large model (more than 100 000 cells, three cells without geometry): every feature still records ITS cell
+        ny_b, nx_b = 3, 33400
+        lat_b = numpy.arange(ny_b) * 0.25
+        lon_b = numpy.arange(nx_b) * 0.001953125
+        latb = numpy.stack([lat_b - 0.125, lat_b + 0.125], axis=-1)
+        lonb = numpy.stack([lon_b - 0.0009765625, lon_b + 0.0009765625], axis=-1)
+        big = xarray.Dataset({'lat_bnds': (('lat', 'bnds'), latb), 'lon_bnds': (('lon', 'bnds'), lonb)},
+                             coords={'lat': ('lat', lat_b, {'units': 'degrees_north', 'bounds': 'lat_bnds'}),
+                                     'lon': ('lon', lon_b, {'units': 'degrees_east', 'bounds': 'lon_bnds'})})
+        for fmt in (['geojson'] if quick else ['geojson', 'shapefile']):
+            case = {'dataset': f'cf1d {ny_b}x{nx_b} (100200 cells)', 'format': fmt}
+            ctx.case(('big', fmt), True)
+            ctx.count(f'large_dataset:{fmt}')
+            path = os.path.join(tmp, 'big.' + {'geojson': 'geojson', 'shapefile': 'shp'}[fmt])
+            with warnings.catch_warnings():
+                warnings.simplefilter('ignore')
+                r = attempt(getattr(geometry_ops, f'write_{fmt}'), big, path)
+            if r[0] != 'ok':
+                ctx.report('property', f'write_{fmt} of a large dataset failed: {r[1]}', case)
+                continue
+            try:
+                if fmt == 'geojson':
+                    recs = [(f['properties'].get('linear_index'), f['properties'].get('index'), f['geometry']['coordinates'][0][0])
+                            for f in json.load(open(path))['features']]
+                else:
+                    with shapefile.Reader(path) as shp:
+                        fnames = [f[0] for f in shp.fields[1:]]
+                        recs = []
+                        for sr in shp.iterShapeRecords():
+                            rec = dict(zip(fnames, list(sr.record)))
+                            idx = rec.get('index')
+                            recs.append((rec.get('linear_ind', rec.get('linear_index')), json.loads(idx) if isinstance(idx, str) else idx,
+                                         list(sr.shape.points[0])))
+            except Exception as e:     # noqa: BLE001
+                ctx.report('property', f'the exported {fmt} file of a large dataset cannot be read back: {type(e).__name__}', case)
+                continue
+            badb = None
+            if len(recs) != ny_b * nx_b:
+                badb = f'{len(recs)} features for {ny_b * nx_b} cells'
+            else:
+                for k in list(range(0, ny_b * nx_b, 997)) + [99999, 100000, 100001, ny_b * nx_b - 1]:
+                    li, idx, first = recs[k]
+                    j, i = divmod(k, nx_b)
+                    if li != k or list(idx) != [j, i]:
+                        badb = f'feature {k} records linear index {li} and native index {idx}; the cell there is {k} = {[j, i]}'
+                        break
+                    if not (lonb[i, 0] <= first[0] <= lonb[i, 1] and latb[j, 0] <= first[1] <= latb[j, 1]):
+                        badb = f'feature {k}: first coordinate {first} is not a corner of cell {[j, i]}'
+                        break
+            if badb:
+                ctx.report('property', badb, case)
         model = coq_eval_sharded(['Model.IndexConv', 'Model.Export'], exprs, shard=8, workers=12)
         ctx.leg('export_lists', len(exprs))
         for (label, scaled, flav, ds, polys, results), mres in zip(plans, model):
